@@ -160,7 +160,23 @@ def run_ideal(case):
     if c is None:
         return {"nontrivial": False, "labels": ["rounded-matrix-rejected-as-non-unitary"]}
     U = c.U
-    mapped = call("Reck().map", interferometers.Reck().map, c)
+    variant = int(np.abs(U).sum() * 1e6) % 4       # a function of the case
+    if variant == 1:
+        # some other interferometer object, created with the default error model too, was made noisy in place
+        # earlier on: "the default error model" of a new Reck() is still the ideal one
+        other_reck = interferometers.Reck()
+        other_reck.error_model.loss = interferometers.dists.TopHat(0.1, 0.3)
+        other_reck.error_model.bs_reflectivity = interferometers.dists.Gaussian(0.4, 0.05, min_value=0.2, max_value=0.6)
+        other_reck.error_model.phase_offset = interferometers.dists.Constant(0.3)
+    reck = interferometers.Reck()
+    if variant == 2 and case["prog"] is not None:
+        # the same Reck object has mapped an earlier version of this very circuit object before
+        grown = make_circuit(case)
+        call("Reck().map (earlier version)", reck.map, grown)
+        grown.bs(0)
+        grown.ps(0, 0.7)
+        c, U = grown, grown.U
+    mapped = call("Reck().map", reck.map, c)
     ps, bs, loss, other = components(mapped)
     if other or loss:
         raise Violation(f"mapped circuit contains {[type(o).__name__ for o in other + loss]}",
